@@ -152,7 +152,7 @@ def run_verus_unit(u, scratch, tier, extra_flags=()):
                 return r2
             finally:
                 vx.DROP_HINT_IDENTS.clear(); vx.DROPPED_HINTS.clear()
-        refit = any("anchor text gone, contract attached" in w for it in built.report if isinstance(it, dict) for w in it.get("rewrites", []))
+        refit = any(("anchor text gone, contract attached" in w or "contract attached with the same renaming" in w) for it in built.report if isinstance(it, dict) for w in it.get("rewrites", []))
         if refit and vx.CLOSURE_FALLBACK[0]:
             vx.CLOSURE_FALLBACK[0] = False
             try:
